@@ -83,6 +83,17 @@ def scenario(sim):
         for r in range(nrekey):
             stage = "re-key %d" % (r + 1)
             who = p.tc if sim.choose(2) == 0 else p.ts
+            if asym is None and sim.choose(2):
+                # the next exchange uses another method (and with it another hash for H and the key derivation),
+                # another cipher and MAC: nothing of the previous exchange may be carried over
+                kex2 = ("diffie-hellman-group14-sha256", "diffie-hellman-group16-sha512", "ecdh-sha2-nistp521",
+                        "diffie-hellman-group14-sha1", "curve25519-sha256@libssh.org", "ecdh-sha2-nistp384")[sim.choose(6)]
+                c2 = CIPHERS[sim.choose(len(CIPHERS))]
+                m2 = MACS[sim.choose(len(MACS))]
+                for t in (p.tc, p.ts):
+                    ssh.configure(t, kex=kex2, cipher=c2, mac=m2)
+                desc.setdefault("rekey_algorithms", []).append([kex2, c2, m2])
+                sim.probe("rekey_with_other_algorithms")
             who.renegotiate_keys()
             ok = ssh.echo_round(sim, ch, sch, 1 + sim.choose(3000), 1 + sim.choose(3000)) and ok
     except Violation:
